@@ -3,7 +3,8 @@
 (*   [case |-> [kind, skew, style, prefix, unit, pauses, pauselen (the time     *)
 (*              assignment), present (tuple), first, cur, q, op,                *)
 (*              sid, k (the k-th call of client history sid)],                  *)
-(*    got  |-> [outcome ("ok" | "error" | "hang"), seq, state_seq, sec, nsec,  *)
+(*    got  |-> [outcome ("ok" | "error" | "hang" | "crash" = the library call  *)
+(*              panicked), seq, state_seq, sec, nsec,                           *)
 (*              txn_max, txn_max_queried,                                       *)
 (*              count, reqs (tuple of [path, status, n]), ...]]                 *)
 (* produced by harness/cmd/c19 from the real Datasource.XxxStateAt /           *)
